@@ -183,6 +183,27 @@ fn block_for(tag: u64) -> BlockInfo {
     BlockInfo { height: 1000 + tag, time: Timestamp::from_seconds(5000 + tag), chain_id: format!("chain-{tag}") }
 }
 
+/// the block supplied by step `tag` when the step is `step` (boundary values: height 0, time 0, empty chain id)
+fn block_of_step(step: &str, tag: u64) -> BlockInfo {
+    let mut b = block_for(tag);
+    match step {
+        "block_h0" => b.height = 0,
+        "block_t0" => b.time = Timestamp::from_nanos(0),
+        "block_c0" => b.chain_id = String::new(),
+        _ => {}
+    }
+    b
+}
+
+fn storage_of_step(step: &str, tag: u64) -> TStorage {
+    let mut inner = MockStorage::new();
+    if step == "storage_data" {
+        inner.set(b"supplied", &[tag as u8]);
+        inner.set(b"", b"x");
+    }
+    TStorage { tag, inner }
+}
+
 fn normalised() -> TBuilder {
     AppBuilder::new()
         .with_api(TApi { tag: 0, inner: MockApi::default() })
@@ -201,8 +222,8 @@ fn normalised() -> TBuilder {
 fn apply_step(b: TBuilder, slot: &str, tag: u64) -> TBuilder {
     match slot {
         "api" => b.with_api(TApi { tag, inner: MockApi::default() }),
-        "block" => b.with_block(block_for(tag)),
-        "storage" => b.with_storage(TStorage { tag, inner: MockStorage::new() }),
+        "block" | "block_h0" | "block_t0" | "block_c0" => b.with_block(block_of_step(slot, tag)),
+        "storage" | "storage_data" => b.with_storage(storage_of_step(slot, tag)),
         "bank" => b.with_bank(TBank::new("bank", tag)),
         "wasm" => b.with_wasm(TWasm { tag, inner: WasmKeeper::new() }),
         "custom" => b.with_custom(TCustom::new("custom", tag)),
@@ -216,10 +237,23 @@ fn apply_step(b: TBuilder, slot: &str, tag: u64) -> TBuilder {
 }
 
 /// which tagged instance serves each slot of a built app
-fn observe_app(app: &mut TApp) -> Vec<(String, u64)> {
-    let mut out = vec![("api".to_string(), app.api().tag), ("storage".to_string(), app.storage().tag)];
+fn observe_app(app: &mut TApp, steps: &[String]) -> Vec<(String, u64)> {
+    let mut out = vec![("api".to_string(), app.api().tag)];
+    // storage: the supplied object with exactly the supplied contents (+ what the initialisation function wrote)
+    let st = app.storage();
+    let stag = st.tag;
+    let supplied_ok = match steps.get((stag as usize).wrapping_sub(1)).map(|s| s.as_str()) {
+        Some("storage_data") => st.get(b"supplied") == Some(vec![stag as u8]) && st.get(b"") == Some(b"x".to_vec()),
+        _ => st.get(b"supplied").is_none() && st.get(b"").is_none(),
+    };
+    out.push(("storage".to_string(), if supplied_ok { stag } else { 9998 }));
+    // block: exactly the BlockInfo some block step supplied (the last one, says the specification)
     let b = app.block_info();
-    out.push(("block".to_string(), if b.chain_id == format!("chain-{}", b.height - 1000) && b.time.seconds() == 4000 + b.height { b.height - 1000 } else { 9999 }));
+    let from = (0..=steps.len() as u64).find(|k| {
+        let step = if *k == 0 { "block" } else { steps[*k as usize - 1].as_str() };
+        (*k == 0 || step.starts_with("block")) && block_of_step(step, *k) == b
+    });
+    out.push(("block".to_string(), from.unwrap_or(9999)));
     let sender = MockApi::default().addr_make("sender");
     let msgs: Vec<(&str, CosmosMsg<Empty>)> = vec![
         ("bank", BankMsg::Burn { amount: vec![] }.into()),
@@ -277,7 +311,8 @@ fn run_app(script: &Value) -> Vec<String> {
             found.push(format!("the initialisation function was given {slot} with tag {t}, specification says {:?}", want.get(&slot)));
         }
     }
-    for (slot, t) in observe_app(&mut app) {
+    let steps: Vec<String> = script["steps"].as_array().unwrap().iter().map(|s| s.as_str().unwrap().to_string()).collect();
+    for (slot, t) in observe_app(&mut app, &steps) {
         if want.get(&slot) != Some(&t) {
             found.push(format!("slot {slot} is served by the component tagged {t}, specification says {:?}", want.get(&slot)));
         }
@@ -397,6 +432,8 @@ fn real_defaults() -> Vec<String> {
     check!("storage,block", AppBuilder::new().with_storage(TStorage { tag: 3, inner: MockStorage::new() }).with_block(b1.clone()).build(no_init), |_a| None, |a: &App<BankKeeper, MockApi, TStorage>| Some(a.storage().tag), 1001);
     check!("block,storage", AppBuilder::new().with_block(b1.clone()).with_storage(TStorage { tag: 3, inner: MockStorage::new() }).build(no_init), |_a| None, |a: &App<BankKeeper, MockApi, TStorage>| Some(a.storage().tag), 1001);
     check!("none", AppBuilder::new().build(no_init), |_a| None, |_a| None, 12345);
+    check!("block_h0", AppBuilder::new().with_block(block_of_step("block_h0", 1)).build(no_init), |_a| None, |_a| None, 0);
+    check!("block,block_h0", AppBuilder::new().with_block(b1.clone()).with_block(block_of_step("block_h0", 2)).build(no_init), |_a| None, |_a| None, 0);
     found
 }
 
